@@ -58,7 +58,8 @@ Fixpoint repr_toks (v : pv) : list token :=
 Definition denote (o : oracle) (v : pv) : option out := py_eval o (lit_of v).
 
 (* atoms are of the right token kind and mean something; this is all that gin's run-time representability test
-   (parse_value(repr(v)) == v) can fail on, apart from Python-equal dict keys *)
+   (parse_value(repr(v)) == v) can fail on, apart from Python-equal dict keys.  The keys of a dict VALUE can be hashed
+   (it is a Python dict): what a key denotes is no list / dict / set and no tuple holding one. *)
 Fixpoint atoms_ok (o : oracle) (v : pv) : Prop :=
   match v with
   | PAtom t => (ty t = NAME \/ ty t = NUMBER) /\ text t <> "-" /\ exists x, olookup o (text t) = Some (Some x)
@@ -67,7 +68,12 @@ Fixpoint atoms_ok (o : oracle) (v : pv) : Prop :=
   | PList l => (fix go (l : list pv) : Prop := match l with [] => True | x :: r => atoms_ok o x /\ go r end) l
   | PTuple l => (fix go (l : list pv) : Prop := match l with [] => True | x :: r => atoms_ok o x /\ go r end) l
   | PDict l => (fix go (l : list (pv * pv)) : Prop :=
-                  match l with [] => True | (k, x) :: r => atoms_ok o k /\ atoms_ok o x /\ go r end) l
+                  match l with [] => True | (k, x) :: r => atoms_ok o k /\ atoms_ok o x /\ go r end) l /\
+               (fix hk (l : list (pv * pv)) : Prop :=
+                  match l with
+                  | [] => True
+                  | (k, _) :: r => (forall a, py_eval o (lit_of k) = Some a -> out_hashable a = true) /\ hk r
+                  end) l
   end.
 
 (* ---- correspondence entry point ----
